@@ -916,11 +916,12 @@ class Gen(object):
                 if a.target == o.ent and rels: continue
                 rels.append(a)
             if r.random() < 0.35:
-                more = [a for a in attrs if a.kind == 'set' and a not in rels and all(a.target != b.target for b in rels) and a.target != o.ent]
+                more = [a for a in attrs if a.kind == 'set' and a not in rels and all(a.target != b.target for b in rels) and a.target != o.ent
+                        and a.name not in getattr(eng, 'gen_exclude_attrs', ())]
                 if more: rels.append(r.choice(more))
             k = [a for a in k if a.kind == 'scalar'] + rels[:3]
             return {'op': 'setmany', 'oid': oid, 'kw': {a.name: self.value_for(a, oid) for a in k}}
-        sets = [a for a in attrs if a.kind == 'set']
+        sets = [a for a in attrs if a.kind == 'set' and (kind == 'coll' or a.name not in getattr(eng, 'gen_exclude_attrs', ()))]
         if not sets: return None
         a = r.choice(sets)
         if kind == 'coll':
@@ -997,7 +998,10 @@ def random_history(eng, rng, n_ops, weights=None, invalid_rate=0.15, stale_rate=
 def replay_ops(spec, ops, workdir, name='replay', stop_on_taint=None, post=None, **engine_kw):
     eng = Engine(spec, workdir, name=name, **engine_kw)
     if stop_on_taint is not None: eng.stop_on_taint = stop_on_taint
-    if post is not None: post(eng)      # the original engine's configuration (loading strategy, handle mode)
+    if post is not None:
+        post(eng)      # the original engine's configuration (loading strategy, handle mode)
+        eng.replay_kw = dict(engine_kw, post=post)
+        eng.replay_kw.pop('force_load', None)
     try:
         run_history(eng, ops)
     except Exception as e:
